@@ -26,7 +26,10 @@ Record xcase := XC {
   xc_rt_dict : option flat_obs;
   xc_rt_nested : again (option flat_obs);           (* Same = equal to xc_rt_dict *)
   xc_rt_df : again (option flat_obs);               (* Same = equal to xc_rt_dict *)
-  xc_rt_pl : again (option flat_obs)                (* Same = equal to xc_rt_df *)
+  xc_rt_pl : again (option flat_obs);               (* Same = equal to xc_rt_df *)
+  xc_nk : str;                 (* name_key used by the nested round trip *)
+  xc_dup : bool;               (* duplicate_name_allowed of the three path constructors *)
+  xc_rt_seps : list (option str)   (* root.sep of the rebuilt trees: dict, nested, df, pl (None = raised) *)
 }.
 
 (* decoding of pre-order observations *)
@@ -71,9 +74,16 @@ Definition check_C06 (c : xcase) : nat :=
   let m_nested := res_map canon_nested (tree_to_nested_dict t p o) in
   let m_df := res_map canon_rows (tree_to_dataframe t sep p o) in
   let m_pl := res_map canon_rows (tree_to_polars t sep p o) in
-  let m_rt_dict := res_map sort_tree (rt_dict t sep) in
-  let m_rt_nested := res_map sort_tree (rt_nested t) in
-  let m_rt_frame := res_map sort_tree (rt_frame t sep) in
+  let m_rt_dict := res_map sort_tree (if xc_dup c then rt_dict t sep else rt_dict_nd t sep) in
+  let m_rt_nested := res_map sort_tree (rt_nested_with (xc_nk c) t) in
+  let m_rt_frame := res_map sort_tree (if xc_dup c then rt_frame t sep else rt_frame_nd t sep) in
+  (* separator of a rebuilt tree: the constructor's sep; nested_dict_to_tree has none (default "/") *)
+  let seps_ok :=
+    list_eqb (opt_eqb str_eqb) (xc_rt_seps c)
+      [option_map (fun _ => sep) o_rt_dict; option_map (fun _ => s_slash) o_rt_nested;
+       option_map (fun _ => sep) o_rt_df; option_map (fun _ => sep) o_rt_pl] in
+  (* with duplicate_name_allowed=False a tree with a repeated name is refused: nothing to claim *)
+  let claimed := xc_dup c || nodup_str (map tname (pre t)) in
   if unmodelled m_dict || negb (valid_tree t) then F_SKIP else
   (* an observation that is not a pre-order depth sequence of one tree *)
   if unmodelled i_nested || unmodelled i_rt_dict || unmodelled i_rt_nested
@@ -88,6 +98,7 @@ Definition check_C06 (c : xcase) : nat :=
     && res_eqb (list_eqb record_eqb) m_df i_df
     && res_eqb (list_eqb record_eqb) m_pl i_pl
     && res_eqb tree_eqb m_rt_nested i_rt_nested
+    && seps_ok
     && (negb in_alphabet
         || (res_eqb tree_eqb m_rt_dict i_rt_dict
             && res_eqb tree_eqb m_rt_frame i_rt_df
@@ -97,8 +108,8 @@ Definition check_C06 (c : xcase) : nat :=
     && prop_C06_nested t p o i_nested
     && prop_C06_frame t sep p o i_df
     && prop_C06_frame t sep p o i_pl
-    && prop_rt_path false sep t i_rt_dict
+    && (negb claimed || prop_rt_path false sep t i_rt_dict)
     && prop_rt_nested t i_rt_nested
-    && prop_rt_path true sep t i_rt_df
-    && prop_rt_path true sep t i_rt_pl in
+    && (negb claimed || prop_rt_path true sep t i_rt_df)
+    && (negb claimed || prop_rt_path true sep t i_rt_pl) in
   flag (negb agree) F_DISAGREE + flag (negb prop) F_PROPFAIL.
